@@ -207,6 +207,7 @@ def check_make_chain(rep, rule, rule_align):
     # list-valued locals as concatenation normal forms: items ('*', param) = all elements of a parameter list in order,
     # ('e', node) = one element, ('?', text) = unknown
     seqenv = {}
+    killed = {}      # a list parameter re-bound to something that is not an order-preserving copy of itself -> the statement
 
     def seq(e):
         if isinstance(e, ast.BinOp) and isinstance(e.op, ast.Add):
@@ -218,10 +219,18 @@ def check_make_chain(rep, rule, rule_align):
             return out
         if isinstance(e, ast.Call) and call_name(e) in ('list', 'tuple') and len(e.args) == 1 and not e.keywords:
             return seq(e.args[0])
+        if isinstance(e, (ast.ListComp, ast.GeneratorExp)) and len(e.generators) == 1 and not e.generators[0].ifs and \
+                isinstance(e.generators[0].target, ast.Name) and not e.generators[0].is_async:
+            # [p for p in X] / [tuple(p) for p in X]: every element of X, in order, itself copied in order
+            v, x = e.generators[0].target.id, e.elt
+            while isinstance(x, ast.Call) and call_name(x) in ('list', 'tuple') and len(x.args) == 1 and not x.keywords:
+                x = x.args[0]
+            if isinstance(x, ast.Name) and x.id == v:
+                return seq(e.generators[0].iter)
         if isinstance(e, ast.Name):
             if e.id in seqenv:
                 return list(seqenv[e.id])
-            if e.id in (ps[0], ps[1]):
+            if e.id in (ps[0], ps[1]) and e.id not in killed:
                 return [('*', e.id)]
         return [('?', norm(e))]
 
@@ -249,6 +258,8 @@ def check_make_chain(rep, rule, rule_align):
             sq = seq(st.value)
             if any(k == '?' for k, _ in sq):
                 seqenv.pop(st.targets[0].id, None)
+                if st.targets[0].id in (ps[0], ps[1]):
+                    killed[st.targets[0].id] = st
             else:
                 seqenv[st.targets[0].id] = sq
         elif isinstance(st, ast.Expr) and isinstance(st.value, ast.Call) and isinstance(st.value.func, ast.Attribute) and \
@@ -291,6 +302,14 @@ def check_make_chain(rep, rule, rule_align):
     def is_empty_tuple(x):
         return (isinstance(x, ast.Tuple) and not x.elts) or (isinstance(x, ast.Call) and call_name(x) == 'tuple' and not x.args)
     (f1, p1), (f2, p2) = captured['argspec_seqs'], captured['compile_seqs']
+    ok = not killed
+    rep.check(rule_align, fkey(fi, 'lists handed on as declared'), ok,
+              'the function list and every provides tuple reach the code generator as declared (order-preserving copies only): the '
+              'parameter order of a generated level is the order in which its middleware declares provides -- the positional '
+              'interface of next()' if ok else
+              '%s is re-bound to %s, which is not an order-preserving copy: the generated next(...) of a level no longer takes its '
+              'parameters in the order the middleware declares (and hands them over positionally) -- values are cross-wired'
+              % (sorted(killed)[0], short(killed[sorted(killed)[0]].value, 70)), sinter, killed[sorted(killed)[0]] if killed else fi.node)
     ok = is_funcs(f1) and is_funcs(f2)
     rep.check(rule_align, fkey(fi, 'function sequence'), ok,
               'chain_argspec and compile_chain both get funcs ++ [final_func]' if ok else
@@ -1639,10 +1658,156 @@ def check_accessors(rep, rule, kinds=True):
               'positional-only parameters are neither rejected nor passed positionally: getfullargspec folds them into .args, the '
               'generated code passes every argument by keyword => "def ep(a, /)" binds fine and fails every request with TypeError',
               sinter, gf.node)
+    check_self_drop(rep, rule, gf)
     # anonymous / non-string args are rejected
     ok = any(raise_type(r) == 'TypeError' for r in raises_of(gf))
     rep.check(rule, fkey(gf, 'strange args rejected'), ok, 'non-string argument names raise TypeError' if ok else
               'get_fb no longer rejects non-string argument names', sinter, gf.node)
+
+
+def check_self_drop(rep, rule, gf):
+    """The signature get_fb reports for a bound method lacks the first (``self``) parameter, for every other callable it
+    is complete -- whatever the *state* of the object: the statement that discards the parameter is guarded by a test of
+    what ``f`` *is* (``isinstance(f, types.MethodType)`` / ``inspect.ismethod(f)``, or ``x is not None`` for a local that is
+    ``f.__self__`` exactly on that branch and None otherwise), never by the truth value of the instance the method is
+    bound to (an object may define ``__bool__`` / ``__len__``: an empty container is falsy)."""
+    sinter = gf.mod
+    ps = gf.params()
+    F = ps[0]
+    flag = ps[1] if len(ps) > 1 else None
+
+    def drops_first(st):
+        """``X.args = X.args[1:]`` / ``del X.args[0]`` / ``X.args.pop(0)``"""
+        if isinstance(st, ast.Assign) and len(st.targets) == 1 and isinstance(st.targets[0], ast.Attribute) and st.targets[0].attr == 'args' and \
+                isinstance(st.value, ast.Subscript) and norm(st.value.value) == norm(st.targets[0]) and isinstance(st.value.slice, ast.Slice) and \
+                norm(st.value.slice.lower) == '1' and st.value.slice.upper is None and st.value.slice.step is None:
+            return True
+        if isinstance(st, ast.Delete) and len(st.targets) == 1 and isinstance(st.targets[0], ast.Subscript) and \
+                isinstance(st.targets[0].value, ast.Attribute) and st.targets[0].value.attr == 'args' and norm(st.targets[0].slice) == '0':
+            return True
+        return isinstance(st, ast.Expr) and isinstance(st.value, ast.Call) and isinstance(st.value.func, ast.Attribute) and \
+            st.value.func.attr == 'pop' and isinstance(st.value.func.value, ast.Attribute) and st.value.func.value.attr == 'args' and \
+            len(st.value.args) == 1 and norm(st.value.args[0]) == '0'
+    drops = [st for st in stmts_of(gf.node) if drops_first(st)]
+    if not drops:
+        rep.fail(rule, fkey(gf, 'self dropped for bound methods'), 'get_fb no longer discards the first parameter of a bound method: "self" is '
+                 'counted as a requirement nobody can supply', sinter, gf.node)
+        return
+
+    def method_test(t):
+        """``t`` is true exactly when f is a bound method."""
+        if isinstance(t, ast.Call) and not t.keywords:
+            if call_name(t) == 'isinstance' and len(t.args) == 2 and norm(t.args[0]) == F and norm(t.args[1]) in ('types.MethodType', 'MethodType'):
+                return True
+            if norm(t.func) in ('inspect.ismethod', 'ismethod') and len(t.args) == 1 and norm(t.args[0]) == F:
+                return True
+        return False
+
+    def instance_of(e, depth=0):
+        """``e`` evaluates to the object the method is bound to (or to a placeholder where there is none)."""
+        if depth > 3:
+            return False
+        while (isinstance(e, ast.Call) and call_name(e) in ('bool', 'len') and len(e.args) == 1 and not e.keywords) or \
+                (isinstance(e, ast.UnaryOp) and isinstance(e.op, ast.Not)):
+            e = e.args[0] if isinstance(e, ast.Call) else e.operand
+        if isinstance(e, ast.Attribute) and e.attr in ('__self__', 'im_self') and norm(e.value) == F:
+            return True
+        if isinstance(e, ast.Call) and call_name(e) == 'getattr' and len(e.args) >= 2 and norm(e.args[0]) == F and \
+                isinstance(e.args[1], ast.Constant) and e.args[1].value in ('__self__', 'im_self'):
+            return True
+        if isinstance(e, ast.BoolOp):
+            return any(instance_of(v, depth + 1) for v in e.values)
+        if isinstance(e, ast.Name) and e.id not in ps:
+            for st_, v, idx in assigned_value(gf.node, e.id):
+                if isinstance(idx, int) and isinstance(v, (ast.Tuple, ast.List)) and idx < len(v.elts):
+                    v = v.elts[idx]
+                elif idx is not None:
+                    continue
+                if isinstance(v, ast.expr) and instance_of(v, depth + 1):
+                    return True
+        return False
+
+    def none_exactly_when_not_method(name):
+        """Every binding of the local is ``f.__self__`` under the method test, or None under its negation."""
+        vals = assigned_value(gf.node, name)
+        if not vals:
+            return False
+        for st_, v, idx in vals:
+            if idx is not None or not isinstance(st_, ast.Assign):
+                return False
+            cs = conds(gf, st_)
+            if isinstance(v, ast.Constant) and v.value is None:
+                if not has_cond(cs, method_test, False):
+                    return False
+            elif isinstance(v, ast.Attribute) and v.attr in ('__self__', 'im_self') and norm(v.value) == F:
+                if not has_cond(cs, method_test, True):
+                    return False
+            else:
+                return False
+        return True
+    par = {}
+    for p_ in ast.walk(gf.node):
+        for ch in ast.iter_child_nodes(p_):
+            par[ch] = p_
+    cfg = cfg_of(gf)
+    for st in drops:
+        established, by_state, unknown = False, [], []
+        # the tests of the ``if`` statements around the statement decide whether *this* callable loses its first parameter;
+        # conditions established by earlier guard clauses only matter when they ask about the instance
+        encl, cur = [], st
+        while cur is not gf.node and cur in par:
+            up = par[cur]
+            if isinstance(up, ast.If):
+                encl.append((up.test, any(cur is x for x in up.body)))
+            elif not isinstance(up, (ast.FunctionDef, ast.With, ast.Try)):
+                raise AnalysisError('get_fb: the statement that discards "self" sits in a %s' % type(up).__name__)
+            cur = up
+        rel = expand_conds(encl)
+        nids = cfg.nodes_of(st)
+        if nids:
+            rel = cfg._expand_named(rel, nids[0])
+        seen_txt = set((norm(t), p) for t, p in rel)
+        rel = rel + [(t, p) for t, p in conds(gf, st) if (norm(t), p) not in seen_txt and instance_of(_strip_not(t, p)[0])]
+        for t, p in rel:
+            t, p = _strip_not(t, p)
+            if isinstance(t, ast.BoolOp) and ((isinstance(t.op, ast.And) and p is True) or (isinstance(t.op, ast.Or) and p is False)):
+                continue        # taken apart: its operands are in the list
+            if method_test(t):
+                if p is True:
+                    established = True
+                else:
+                    unknown.append((t, p))
+                continue
+            if flag is not None and isinstance(t, ast.Name) and t.id == flag:
+                continue
+            k = None
+            if isinstance(t, ast.Compare) and len(t.ops) == 1 and isinstance(t.comparators[0], ast.Constant) and t.comparators[0].value is None \
+                    and isinstance(t.ops[0], (ast.Is, ast.IsNot)):
+                k = isinstance(t.ops[0], ast.IsNot) == (p is True)         # True: "is not None" holds
+            if k is not None and isinstance(t.left, ast.Name) and none_exactly_when_not_method(t.left.id):
+                if k:
+                    established = True
+                else:
+                    unknown.append((t, p))
+                continue
+            if k is None and instance_of(t):
+                by_state.append((t, p))
+                continue
+            if isinstance(t, ast.Name) and t.id not in ps and nids and len(cfg._expand_named([(t, p)], nids[0])) > 1:
+                continue        # a local naming a condition: what it stands for is in the list
+            unknown.append((t, p))
+        if unknown and not by_state:
+            raise AnalysisError('get_fb: the guard of the statement that discards "self" is not recognised: %s' % cond_texts(unknown))
+        ok = established and not by_state
+        rep.check(rule, fkey(gf, 'self dropped for bound methods'), ok,
+                  'the first parameter is discarded exactly when f is a bound method (a test of what f is, not of the state of the '
+                  'object it is bound to)' if ok else
+                  ('whether "self" is discarded depends on the truth value of the object the method is bound to (%s): a method of an '
+                   'instance that is falsy at bind time (empty container, __bool__/__len__) keeps its self parameter -- a satisfiable '
+                   'configuration is rejected with "unresolved ... [\'self\']" / "must take argument \'next\' as the first parameter"'
+                   % ', '.join(cond_texts(by_state)) if by_state else
+                   'the first parameter is discarded without establishing that f is a bound method (%s): plain functions lose a real parameter'
+                   % (cond_texts(encl) or 'unconditionally')), sinter, st)
 
 
 def check_middleware_identity(rep, rule):
@@ -2143,6 +2308,98 @@ def check_merge_keeps_outer(rep, rule):
     for r in recs:
         if r['key'].endswith(('::starts with new', '::only appends')) and r['complete'] is not None:
             rep.check(rule, r['key'] + ' (outer instances kept)', r['complete'][0], r['complete'][1], fi.mod, r['node'])
+
+
+def check_chain_of_this_binding(rep, rule):
+    """What a bound route executes is the chain compiled from *its own* merged middleware list: every value BoundRoute.__init__
+    stores in ``_execute`` is ``make_middleware_chain(self.middlewares, ..)`` of this activation, on every path, and nothing
+    else writes the attribute.  A chain taken over from another binding (an earlier binding of the same route, a cache keyed
+    by anything that compares middlewares with ``==``, which is by *type*) runs that binding's instances and order, whatever
+    ``self.middlewares`` shows."""
+    repo = rep.repo
+    route = repo.mod(ROUTE)
+    bi = route.func('BoundRoute.__init__')
+    cfg = cfg_of(bi)
+    writes = [s_ for s_ in stmts_of(bi.node) if isinstance(s_, (ast.Assign, ast.AugAssign, ast.AnnAssign)) and
+              any(norm(t) == 'self._execute' for t in (s_.targets if isinstance(s_, ast.Assign) else [s_.target]))]
+    if not writes:
+        raise AnalysisError('BoundRoute.__init__: no assignment to self._execute')
+    merged = {'self.middlewares'}
+    for s_ in stmts_of(bi.node):
+        if isinstance(s_, ast.Assign) and any(norm(t) == 'self.middlewares' for t in s_.targets) and isinstance(s_.value, ast.Name) and \
+                len(assigned_value(bi.node, s_.value.id)) == 1:
+            merged.add(s_.value.id)          # merged = merge_middlewares(..); self.middlewares = merged
+    bad = []
+    for s_ in writes:
+        v = _deref(bi, s_.value) if isinstance(s_, ast.Assign) else None
+        a0 = argn(v, 'middlewares', 0) if isinstance(v, ast.Call) and call_name(v) == 'make_middleware_chain' else None
+        if a0 is None or norm(a0) not in merged:
+            bad.append(s_)
+    ok = not bad and cfg.must_pass(cfg.nodes_of_all(writes), cfg.entry, cfg.exit, normal_only=True)
+    rep.check(rule, fkey(bi, 'executes the chain of its own merged list'), ok,
+              'self._execute is make_middleware_chain(self.middlewares, ..) of this binding, on every path' if ok else
+              ('a bound route can execute a chain that was not compiled from its own merged middleware list (%s): the functions that '
+               'run are those of another binding -- other instances, possibly another order -- while self.middlewares shows the merged '
+               'stack (middlewares compare equal by type, so "the same stack" does not mean the same objects)'
+               % short(bad[0], 80) if bad else 'a BoundRoute can be constructed without compiling its chain'),
+              route, bad[0] if bad else writes[0])
+    writers = []
+    for m in repo.all_internal_modules():
+        for fi_ in m.functions.values():
+            for e in effects.effects_in(fi_.node):
+                if e.chain and '_execute' in e.chain:
+                    writers.append(fi_)
+    ok = bool(writers) and all(w is bi for w in writers)
+    rep.check(rule, 'clastic::writers of _execute (order)', ok, 'only BoundRoute.__init__ stores a chain in _execute' if ok else
+              '_execute is also written by %s' % sorted(set(w.key for w in writers if w is not bi)), route, bi.node)
+
+
+def check_execute_offers_provided(rep, rule):
+    """Everything the bind-time check counted as available reaches the compiled chain at request time: BoundRoute.execute
+    offers the *whole* mapping of bound resources (the one whose keys BoundRoute.__init__ passed as preprovided) and
+    passes its call-time parameters (URL bindings, the dispatcher's built-ins) on unfiltered."""
+    repo = rep.repo
+    route = repo.mod(ROUTE)
+    ex = route.func('BoundRoute.execute')
+    bi = route.func('BoundRoute.__init__')
+    inj = [c for c in walk_body(ex.node) if isinstance(c, ast.Call) and call_name(c) == 'inject']
+    if len(inj) != 1 or len(inj[0].args) < 2:
+        raise AnalysisError('BoundRoute.execute: expected one inject(callable, injectables) call')
+    ls = layers_of_value(ex.node, inj[0].args[1])
+
+    def whole(e, of, fi, depth=0):
+        """``e`` holds every item of the mapping ``of`` (the mapping itself or an unfiltered copy)."""
+        if depth > 3:
+            return False
+        if norm(e) == of:
+            return True
+        if isinstance(e, ast.Call) and call_name(e) == 'dict' and len(e.args) == 1 and not e.keywords:
+            return whole(e.args[0], of, fi, depth + 1)
+        if isinstance(e, ast.Call) and isinstance(e.func, ast.Attribute) and e.func.attr == 'copy' and not e.args and not e.keywords:
+            return whole(e.func.value, of, fi, depth + 1)
+        if isinstance(e, ast.Dict) and len(e.keys) == 1 and e.keys[0] is None:
+            return whole(e.values[0], of, fi, depth + 1)
+        if isinstance(e, ast.Name) and e.id not in fi.params():
+            v = _single_value(fi, e.id)
+            return v is not None and whole(v, of, fi, depth + 1)
+        if isinstance(e, ast.Attribute) and isinstance(e.value, ast.Name) and e.value.id == 'self' and fi is not bi:
+            # another attribute of the route: what BoundRoute.__init__ stored there (its only writer)
+            stores = [s_ for s_ in stmts_of(bi.node) if isinstance(s_, ast.Assign) and any(norm(t) == norm(e) for t in s_.targets)]
+            others = [1 for m in repo.all_internal_modules() for f_ in m.functions.values() if f_ is not bi
+                      for ef in effects.effects_in(f_.node) if ef.chain and e.attr in ef.chain]
+            return len(stores) == 1 and not others and whole(stores[0].value, of, bi, depth + 1)
+        return False
+    ok = any(l.kind == 'source' and whole(l.node, 'self.resources', ex) for l in ls)
+    rep.check(rule, fkey(ex, 'offers every bound resource'), ok,
+              'execute() offers all of self.resources -- the mapping whose keys were counted as available at bind time' if ok else
+              'execute() does not offer the whole of self.resources (layers: %s) although binding counted every resource name as '
+              'available to every function of the chain: an accepted configuration fails per request with a missing argument'
+              % [l.text for l in ls], route, inj[0])
+    kw = ex.node.args.kwarg.arg if ex.node.args.kwarg is not None else None
+    ok = kw is not None and any(l.kind == 'source' and whole(l.node, kw, ex) for l in ls)
+    rep.check(rule, fkey(ex, 'passes call-time parameters on'), ok,
+              'execute() passes its **%s (URL bindings and the dispatcher\'s built-ins) on unfiltered' % kw if ok else
+              'execute() does not pass its call-time parameters on unfiltered (layers: %s)' % [l.text for l in ls], route, inj[0])
 
 
 def check_merge_order(rep, rule):
